@@ -1,9 +1,18 @@
-import Srctools.Model.C13
+import Srctools.Proofs.C13Refine
 import Srctools.Gen.Vpk
 /-!
 # C13 — VPK archives return exactly what was last written, across reopen
 
-Property theorems only.  All statements are about the model `C13` (Model/C13.lean).
+Property theorems only.  All statements are about the executable model `C13` of
+`/repo/src/srctools/vpk.py` (Model/C13.lean; the specification is Model/C13Spec.lean), for an
+arbitrary checksum function `crc`.  Hypotheses that restrict the domain are explicit and decidable:
+
+* `TreeWF t` — the tree is a dict of dicts (distinct keys per level), every name part is
+  representable (`strOK`: ASCII/surrogateescape characters, no NUL, not the string `" "`), entries
+  are normalised (`infoNorm`);
+* `Tree.fits` / `runFits` — every field fits its 16/32-bit slot (`struct.pack` does not raise);
+* `opOK` — name parts contain no NUL and are not `" "`, archive indexes differ from `0x7fff`.
+The classes excluded by `opOK` are open known findings (witness theorems at the end).
 -/
 namespace C13
 
@@ -28,5 +37,174 @@ theorem C13_gen_ok :
         "self.offset = file.seek(0, os.SEEK_END)"]
     ∧ Gen.Vpk.emptyChecksumExpr = "checksum(b'')" ∧ Gen.Vpk.checksumBody = ["return crc32(data, prior)"] := by
   decide
+
+/-! ## the directory file -/
+
+/-- **`load_dirfile ∘ write_dirfile` is the identity.**  For every well-formed tree whose fields fit and
+every footer: decoding the written bytes succeeds, gives back the footer and version 1, and a tree
+(`rawTree t`: the same dicts in file order) in which every key maps to the same entry; that tree
+is again well formed. -/
+theorem C13_dir (t : Tree) (f : Bytes) (hwf : TreeWF t) (hfit : t.fits = true) :
+    decodeDir (encodeDir 1 t f) = .ok ⟨rawTree t, f, 1⟩
+    ∧ (∀ k, Tree.lookup (rawTree t) k = t.lookup k) ∧ TreeWF (rawTree t) :=
+  ⟨decodeDir_encodeDir t f hwf hfit, fun k => lookup_rawTree hwf k, treeWF_rawTree hwf⟩
+
+/-- one name string: what `iter_nullstr` yields for the bytes `_write_nullstring` wrote, wherever they sit -/
+theorem C13_dir_string (s : Str) (rest : Bytes) (h : strOK s = true) :
+    ∃ b, readCStr (encStr s ++ rest) = some (b, rest) ∧ itemOf b = some s :=
+  ⟨strBytes s, readCStr_encStr s rest h, itemOf_strBytes s h⟩
+
+/-- one 18-byte entry + preload bytes -/
+theorem C13_dir_entry (i : Info) (rest : Bytes) (hf : i.fits = true) (hn : infoNorm i = true) :
+    decEntry (encEntry i ++ rest) = .ok (i, rest) :=
+  decEntry_encEntry i rest hf hn
+
+/-! ## read after write -/
+
+/-- **`read()` after `write(data, arch_index)` returns `data` and `verify()` is true**, for every preload
+limit, every archive index, directory and single-file archives, every previous state of the entry
+(including the early return for identical data) — i.e. for all four placements. -/
+theorem C13_read_write (crc : Bytes → Nat) (single : Bool) (lim : Option Nat) (archs : List (Nat × Bytes))
+    (footer : Bytes) (i : Info) (data : Bytes) (idx : Option Nat) (wr : Written)
+    (h : writeInfo crc single lim archs footer i data idx = .ok wr) :
+    readInfo wr.archs wr.footer wr.info = .ok data ∧ verifyInfo crc wr.archs wr.footer wr.info = .ok true := by
+  have := readInfo_writeInfo crc single lim archs footer i data idx wr h
+  exact ⟨this.1, by simp [verifyInfo, this.1, this.2]⟩
+
+/-- the write never fails on an entry whose archive part exists, and it leaves every other such entry
+readable with unchanged contents (archives and the directory tail only grow at the end). -/
+theorem C13_read_write_frame (crc : Bytes → Nat) (single : Bool) (lim : Option Nat) (archs : List (Nat × Bytes))
+    (footer : Bytes) (i : Info) (data : Bytes) (idx : Option Nat) (hidx : idxOK idx = true)
+    (hn : infoNorm i = true) (hv : InfoValid archs footer i) :
+    ∃ wr, writeInfo crc single lim archs footer i data idx = .ok wr ∧
+      ∀ i', InfoValid archs footer i' →
+        InfoValid wr.archs wr.footer i' ∧ readInfo wr.archs wr.footer i' = readInfo archs footer i' := by
+  obtain ⟨wr, hwr, _⟩ := writeInfo_facts crc single lim archs footer i data idx hidx hn hv
+  exact ⟨wr, hwr, fun i' hv' => writeInfo_frame crc single lim archs footer i data idx hidx hn hv wr hwr i' hv'⟩
+
+/-! ## refinement: every history behaves like the map `name ⇀ bytes` -/
+
+/-- **Refinement, from any related pair of states.** -/
+theorem C13_refine_from (crc : Bytes → Nat) (ops : List Op) (w : World) (s : Spec) (hR : R crc w s)
+    (hok : ∀ op ∈ ops, opOK op = true) (hfit : runFits crc w ops = true) :
+    (run crc w ops).2 = (specRun s ops).2 ∧ R crc (run crc w ops).1 (specRun s ops).1 :=
+  run_refines crc ops w s hR hok hfit
+
+/-- **Refinement.**  For EVERY finite history of `VPK(mode, limit)` (re)opens in r/w/a,
+`new_file`, `add_file`, `FileInfo.write`, `del`, `write_dirfile` and `in` on a directory or single-file
+archive starting from an empty folder: every operation returns what the specification returns
+(same success/error), and afterwards the open archive lists exactly the specification's files
+(`keys`), `read()` of every name gives exactly the specification's bytes, and `verify_all()` is
+true.  Since the statement holds for every prefix, it holds after every reopen. -/
+theorem C13_refine (crc : Bytes → Nat) (single : Bool) (ops : List Op)
+    (hok : ∀ op ∈ ops, opOK op = true) (hfit : runFits crc (World.init single) ops = true) :
+    (run crc (World.init single) ops).2 = (specRun Spec.init ops).2
+    ∧ (∀ k, (run crc (World.init single) ops).1.read k = (specRun Spec.init ops).1.read k)
+    ∧ (∀ k, k ∈ (run crc (World.init single) ops).1.keys ↔ ((specRun Spec.init ops).1.read k).isSome = true)
+    ∧ (run crc (World.init single) ops).1.verifyAll crc = .ok true := by
+  have h := run_refines crc ops _ _ (R_init crc single) hok hfit
+  exact ⟨h.1, fun k => R_read h.2 k, fun k => R_keys h.2 k, R_verify h.2⟩
+
+/-! ## names -/
+
+/-- **The three spellings of a file name resolve to the same triple**: `"d/n.e"`, `("d", "n.e")` and
+`("d", "n", "e")`, for every folder `d` not ending in `/` (it may be empty, unnormalised, contain
+back-slashes …), every name `n` without `/`, every extension `e` without `/` and `.`; when the
+extension is empty the name must not contain a `.` (otherwise all three split it the same way,
+but not into `(n, "")`). -/
+theorem C13_names (d n e : Str) (hn : SLASH ∉ n) (hes : SLASH ∉ e) (he : DOT ∉ e)
+    (hne : e = [] → DOT ∉ n) (hl : d.getLast? ≠ some SLASH) :
+    getFileParts (.str (joinFileParts ⟨d, n, e⟩)) = ⟨cleanPath d, n, e⟩
+    ∧ getFileParts (.pair d (n ++ dotExt e)) = ⟨cleanPath d, n, e⟩
+    ∧ getFileParts (.triple d n e) = ⟨cleanPath d, n, e⟩ :=
+  ⟨getFileParts_str d n e hn hes he hne hl, getFileParts_pair d n e he hne, getFileParts_triple d n e hne⟩
+
+/-! ## read-only archives -/
+
+/-- **Mode `r` rejects every mutation**: `new_file`, `add_file`, `write`, `del`, `write_dirfile` return
+an error and change nothing — neither the open archive nor any file on disk. -/
+theorem C13_readonly (crc : Bytes → Nat) (w : World) (v : Vpk) (hv : w.vpk = some v) (hm : v.mode = .r)
+    (op : Op) (hop : ∀ m l, op ≠ .openVpk m l) (hh : ∀ n, op ≠ .has n) :
+    (step crc w op).1 = w ∧ ∃ e, (step crc w op).2 = .err e :=
+  step_readonly crc w v hv hm op hop hh
+
+/-! ## non-vacuity: concrete instances satisfying the hypotheses -/
+
+deriving instance DecidableEq for Except
+
+/-- a toy checksum for the examples (the theorems hold for every function) -/
+def exCrc (b : Bytes) : Nat := b.foldl (fun a x => (a * 31 + x + 1) % 65521) 0
+
+def exName (s : String) : Str := s.toList.map Char.toNat
+
+/-- files in all four placements: preload only, directory tail, numbered archive, and an empty part names -/
+def exTree : Tree :=
+  [([116, 120, 116], [([97], [([110], ⟨7, none, 0, 0, [1, 2, 3]⟩), ([], ⟨9, some 1, 4, 2, [5]⟩)]),
+                      ([], [([109], ⟨3, none, 0, 6, []⟩)])]),
+   ([], [([97, 47, 98], [([0xDC80], ⟨0, none, 0, 0, []⟩)])])]
+
+example : TreeWF exTree ∧ exTree.fits = true := by decide +kernel
+
+example : decodeDir (encodeDir 1 exTree [9, 9, 9, 9, 9, 9]) = .ok ⟨rawTree exTree, [9, 9, 9, 9, 9, 9], 1⟩ :=
+  (C13_dir exTree _ (by decide +kernel) (by decide +kernel)).1
+
+/-- a history through all placements, overwrite, delete, reopen in r, a, w -/
+def exOps : List Op :=
+  [.openVpk .w (some 2),
+   .addFile (.str [97, 47, 110, 46, 101]) [1, 2, 3, 4, 5] (some 1),       -- numbered archive + preload
+   .addFile (.pair [97] [109]) [6, 7, 8] none,                              -- directory tail + preload
+   .addFile (.triple [] [] [101]) [9] (some 0),                             -- preload only
+   .newFile (.str [122]),
+   .write (.triple [97] [110] [101]) [5, 4, 3, 2, 1, 0] none,               -- overwrite, moves to the tail
+   .flush,
+   .openVpk .r none,
+   .write (.str [122]) [1] none,                                            -- rejected
+   .openVpk .a (some 0),
+   .del (.str [97, 47, 109]),
+   .write (.str [122]) [4, 4, 4, 4] (some 7),
+   .flush,
+   .openVpk .r (some 16)]
+
+example : (∀ op ∈ exOps, opOK op = true) ∧ runFits exCrc (World.init false) exOps = true
+    ∧ runFits exCrc (World.init true) exOps = true := by decide +kernel
+
+example : (run exCrc (World.init false) exOps).2
+    = [.ok, .ok, .ok, .ok, .ok, .ok, .ok, .ok, .err .readonly, .ok, .ok, .ok, .ok, .ok] := by decide +kernel
+
+example : (run exCrc (World.init false) exOps).1.read ⟨[97], [110], [101]⟩ = some (.ok [5, 4, 3, 2, 1, 0])
+    ∧ (run exCrc (World.init true) exOps).1.read ⟨[], [122], []⟩ = some (.ok [4, 4, 4, 4])
+    ∧ (run exCrc (World.init false) exOps).1.read ⟨[97], [109], []⟩ = none := by decide +kernel
+
+example : getFileParts (.str (exName "a//b/../c/n.e")) = ⟨exName "a/c", exName "n", exName "e"⟩ := by decide +kernel
+
+example : (step exCrc ⟨false, some [], [], some ⟨[], [], .r, none, 1⟩⟩ (.addFile (.str [97]) [1] none)).2
+    = .err .readonly := by decide +kernel
+
+/-! ## the excluded classes are necessary: witnesses (open known findings, replayed on the implementation) -/
+
+def exSpaceTree : Tree := [([101], [([97], [([32], ⟨0, none, 0, 0, [1]⟩)])])]
+def exNulTree : Tree := [([101], [([97], [([110, 0, 109], ⟨0, none, 0, 0, [1]⟩)])])]
+def ex7fffOps : List Op := [.openVpk .w (some 1), .addFile (.str [97]) [1, 2, 3] none,
+  .addFile (.str [98]) [7, 8, 9] (some 0x7fff), .flush, .openVpk .r none]
+
+/-- a name part `" "` comes back as the empty string: `C13_dir` is false without `strOK` -/
+theorem C13_name_space_witness :
+    (decodeDir (encodeDir 1 exSpaceTree [])).toOption.map (fun l => l.tree.lookup ⟨[97], [32], [101]⟩) = some none
+    ∧ (decodeDir (encodeDir 1 exSpaceTree [])).toOption.map (fun l => l.tree.lookup ⟨[97], [], [101]⟩)
+        = some (some ⟨0, none, 0, 0, [1]⟩)
+    ∧ exSpaceTree.lookup ⟨[97], [32], [101]⟩ = some ⟨0, none, 0, 0, [1]⟩ := by
+  decide +kernel
+
+/-- a name part containing NUL makes the written directory unreadable (bad terminator) -/
+theorem C13_name_nul_witness :
+    (match decodeDir (encodeDir 1 exNulTree []) with | .error e => some e | .ok _ => none) = some Err.badterm := by
+  decide +kernel
+
+/-- archive index `0x7fff` is read back as "stored after the directory tree": the model (like the
+code) returns bytes of the footer instead of the data written; `C13_refine` is false without `idxOK` -/
+theorem C13_index_7fff_witness :
+    (run exCrc (World.init false) ex7fffOps).1.read ⟨[], [98], []⟩ = some (.ok [7, 2, 3])
+    ∧ (specRun Spec.init ex7fffOps).1.read ⟨[], [98], []⟩ = some (.ok [7, 8, 9]) := by
+  decide +kernel
 
 end C13
